@@ -47,18 +47,20 @@ Inductive event := Registered (r : regrec) | Unregistered (r : regrec).
 
 (* ROutside: "the call is outside the modelled argument space"; never produced by [cstep], only
    by the kernels regenerated from the source text (Gen/ComponentsKernel.v) *)
-Inductive ret := RNone | RBool (b : bool) | RTypeError | ROutside.
+Inductive ret := RNone | RBool (b : bool) | RTypeError | ROutside
+  | RDict (c : nat * nat * nat * nat).   (* what rebuildUtilityRegistryFromLocalCache returns *)
 
-(* the eight mutators + re-__init__; [f : option nat] of RegUtility is the ``factory=`` argument
+(* the eight mutators + re-__init__; [ev] is the ``event=`` argument of the register methods
+   (False: the Registered event is not emitted; the state change is the same); [f : option nat] of RegUtility is the ``factory=`` argument
    (an identity; the component is what it returns) *)
 Inductive cop :=
-| RegUtility (c : value) (p : spec) (n : name) (i : info) (f : option nat)
+| RegUtility (c : value) (p : spec) (n : name) (i : info) (f : option nat) (ev : bool)
 | UnregUtility (c : option value) (p : spec) (n : name)
-| RegAdapter (f : value) (req : list (option spec)) (p : spec) (n : name) (i : info)
+| RegAdapter (f : value) (req : list (option spec)) (p : spec) (n : name) (i : info) (ev : bool)
 | UnregAdapter (f : option value) (req : list (option spec)) (p : spec) (n : name)
-| RegSub (f : value) (req : list (option spec)) (p : spec) (n : name) (i : info)
+| RegSub (f : value) (req : list (option spec)) (p : spec) (n : name) (i : info) (ev : bool)
 | UnregSub (f : option value) (req : list (option spec)) (p : spec) (n : name)
-| RegHandler (f : value) (req : list (option spec)) (n : name) (i : info)
+| RegHandler (f : value) (req : list (option spec)) (n : name) (i : info) (ev : bool)
 | UnregHandler (f : option value) (req : list (option spec)) (n : name)
 | UtilityBoth (unreg : bool) (c : value) (p : spec) (n : name)   (* component AND factory= given: TypeError *)
 | Reinit.
@@ -151,6 +153,23 @@ Definition with_cache (st : cstate) x : cstate :=
 (* an exception escaped / the call left the modelled space: the caller must propagate *)
 Definition is_exc (r : ret) : bool := match r with RTypeError | ROutside => true | _ => false end.
 
+(* ---- AdapterLookupBase.queryMultiAdapter / subscribers over a chain of registries (uncached):
+   vocabulary of the query kernels regenerated from the source text.  Objects = (provided-by
+   spec, object number). *)
+Definition reg_queryMultiAdapter (W : world) (call : value -> list nat -> option nat) (regs : list reg)
+           (os : list (spec * nat)) (p : spec) (n : name) : option nat :=
+  match uncached_lookup W regs (map fst os) p n with
+  | Some f => call f (map snd os)
+  | None => None
+  end.
+Definition reg_subscribers (W : world) (call : value -> list nat -> option nat) (regs : list reg)
+           (os : list (spec * nat)) (p : option spec) : list nat * list value :=
+  let subs := uncached_subscriptions W regs (map fst os) p in
+  (match p with
+   | Some _ => flat_map (fun s => match call s (map snd os) with Some r => [r] | None => [] end) subs
+   | None => []
+   end, subs).
+
 (* Components.__init__: fresh registries, fresh registrations, cache dropped (rebuilt lazily from
    the -- empty -- registrations) *)
 Definition cinit : cstate := mkCS empty_reg empty_reg [] [] [] [] [].
@@ -223,17 +242,19 @@ Section Components.
     end.
 
   (* Components.registerUtility *)
+  Definition announce (ev : bool) (r : regrec) : list event := if ev then [Registered r] else [].
+
   Definition registerUtility (st : cstate) (c : value) (p : spec) (n : name) (i : info) (f : option nat)
-    : cstate * ret * list event :=
+             (ev : bool) : cstate * ret * list event :=
     match aget pn_eqb (c_ureg st) (p, n) with
     | Some (oc, oi, _) =>
         if v_eq oc c && Nat.eqb oi i then (st, RNone, [])      (* reg[:2] == (component, info) *)
         else
           match unregisterUtility st (Some oc) p n with
           | (st1, RTypeError, ev1) => (st1, RTypeError, ev1)
-          | (st1, _, ev1) => (ur_register st1 p n c i f, RNone, ev1 ++ [Registered (RU p n c i f)])
+          | (st1, _, ev1) => (ur_register st1 p n c i f, RNone, ev1 ++ announce ev (RU p n c i f))
           end
-    | None => (ur_register st p n c i f, RNone, [Registered (RU p n c i f)])
+    | None => (ur_register st p n c i f, RNone, announce ev (RU p n c i f))
     end.
 
   (* _getAdapterRequired with an explicit ``required``: None -> Interface *)
@@ -243,11 +264,11 @@ Section Components.
     mkCS (c_utils st) a (c_ureg st) areg sreg hreg (c_cache st).
 
   Definition registerAdapter (st : cstate) (f : value) (req : list (option spec)) (p : spec) (n : name)
-             (i : info) : cstate * ret * list event :=
+             (i : info) (ev : bool) : cstate * ret * list event :=
     let r := conv_req req in
     (set_adapters st (register W (c_adapters st) (map Some r) p n (Some f))
                   (aset akey_eqb (c_areg st) (r, p, n) (f, i)) (c_sreg st) (c_hreg st),
-     RNone, [Registered (RA r p n f i)]).
+     RNone, announce ev (RA r p n f i)).
 
   Definition unregisterAdapter (st : cstate) (f : option value) (req : list (option spec)) (p : spec)
              (n : name) : cstate * ret * list event :=
@@ -262,13 +283,13 @@ Section Components.
     end.
 
   Definition registerSub (st : cstate) (f : value) (req : list (option spec)) (p : spec) (n : name)
-             (i : info) : cstate * ret * list event :=
+             (i : info) (ev : bool) : cstate * ret * list event :=
     if negb (Nat.eqb n 0) then (st, RTypeError, [])
     else
       let r := conv_req req in
       (set_adapters st (subscribe W (c_adapters st) (map Some r) (Some p) f)
                     (c_areg st) (c_sreg st ++ [(r, p, f, i)]) (c_hreg st),
-       RNone, [Registered (RS r p (Some f) i)]).
+       RNone, announce ev (RS r p (Some f) i)).
 
   Definition fac_match (f : option value) (stored : value) : bool :=
     match f with None => true | Some f' => v_eq stored f' end.
@@ -288,13 +309,13 @@ Section Components.
             RBool true, [Unregistered (RS r p f 0)]).
 
   Definition registerHandler (st : cstate) (f : value) (req : list (option spec)) (n : name) (i : info)
-    : cstate * ret * list event :=
+             (ev : bool) : cstate * ret * list event :=
     if negb (Nat.eqb n 0) then (st, RTypeError, [])
     else
       let r := conv_req req in
       (set_adapters st (subscribe W (c_adapters st) (map Some r) None f)
                     (c_areg st) (c_sreg st) (c_hreg st ++ [(r, f, i)]),
-       RNone, [Registered (RH r (Some f) i)]).
+       RNone, announce ev (RH r (Some f) i)).
 
   Definition hnd_match (f : option value) (r : list spec) (e : list spec * value * info) : bool :=
     let '(r', f', _) := e in lspec_eqb r' r && fac_match f f'.
@@ -312,13 +333,13 @@ Section Components.
 
   Definition cstep (st : cstate) (o : cop) : cstate * ret * list event :=
     match o with
-    | RegUtility c p n i f => registerUtility st c p n i f
+    | RegUtility c p n i f ev => registerUtility st c p n i f ev
     | UnregUtility c p n => unregisterUtility st c p n
-    | RegAdapter f req p n i => registerAdapter st f req p n i
+    | RegAdapter f req p n i ev => registerAdapter st f req p n i ev
     | UnregAdapter f req p n => unregisterAdapter st f req p n
-    | RegSub f req p n i => registerSub st f req p n i
+    | RegSub f req p n i ev => registerSub st f req p n i ev
     | UnregSub f req p n => unregisterSub st f req p n
-    | RegHandler f req n i => registerHandler st f req n i
+    | RegHandler f req n i ev => registerHandler st f req n i ev
     | UnregHandler f req n => unregisterHandler st f req n
     | UtilityBoth _ _ _ _ => (st, RTypeError, [])       (* "Can't specify factory and component." *)
     | Reinit => (cinit, RNone, [])
@@ -354,6 +375,32 @@ Section Components.
                  ((if ok_reg then nr else S nr), (if ok_reg then S dr else dr),
                   (if ok_sub then ns else S ns), (if ok_sub then S ds else ds)))
               (c_ureg st) (0, 0, 0, 0).
+
+  (* ---- rebuildUtilityRegistryFromLocalCache(rebuild): the general form.  While it runs,
+     ``utils.changed`` is a no-op (no invalidation, no generation bump); one real changed() at the
+     end if anything was repaired.  [set_gen] restores / bumps the generation accordingly (the
+     lookup caches are not modelled). *)
+  Definition set_gen (u : reg) (g : nat) : reg :=
+    mkReg (adapters u) (Adapter.subscribers u) (provided_cnt u) (extendors u) g.
+
+  Definition rebuild_loop (rebuild : bool) (u0 : reg) (regs : list ((spec * name) * (value * info * option nat)))
+    : reg * (nat * nat * nat * nat) :=
+    fold_left (fun acc kv =>
+                 let '(u, (nr, dr, ns, ds)) := acc in
+                 let '((p, n), (v, _, _)) := kv in
+                 let ok_reg := match registered u [] p n with Some v' => v_eq v' v | None => false end in
+                 let u1 := if ok_reg then u else if rebuild then register W u [] p n (Some v) else u in
+                 let ok_sub := subscribed u1 [] (Some p) v in
+                 let u2 := if ok_sub then u1 else if rebuild then subscribe W u1 [] (Some p) v else u1 in
+                 (u2, ((if ok_reg then nr else S nr), (if ok_reg then S dr else dr),
+                       (if ok_sub then ns else S ns), (if ok_sub then S ds else ds))))
+              regs (u0, (0, 0, 0, 0)).
+
+  Definition rebuildUtilityRegistry (rebuild : bool) (st : cstate) : cstate * (nat * nat * nat * nat) :=
+    let '(u, (nr, dr, ns, ds)) := rebuild_loop rebuild (c_utils st) (c_ureg st) in
+    let g0 := generation (c_utils st) in
+    let u' := set_gen u (if rebuild && (negb (Nat.eqb ns 0) || negb (Nat.eqb nr 0)) then S g0 else g0) in
+    (with_utils st u', (nr, dr, ns, ds)).
 
   (* ---- query methods (uncached walkers over the single registry; no bases) *)
   Variable call : value -> list nat -> option nat.
